@@ -416,7 +416,7 @@ Section Run.
              (outer : list nested) : res value :=
     match outer with
     | [] => Err (new_err (KTooFewItems 1))
-    | [NLit _ _] => Err (unsupported_format "literal")
+    | [NLit i _] => Err (with_span (i_span i) (unsupported_format "literal"))
     | [n] =>
         let name := match meta_path n with Some p => path_to_string p | None => "" end in
         match enum_arm variants vconvs name n with
@@ -428,7 +428,7 @@ Section Run.
                     | _ => unknown_field_with_alts sugg sim name (variant_names variants)
                     end))
         end
-    | _ => Err (new_err (KTooManyItems 1))
+    | _ :: n2 :: _ => Err (with_span (i_span (ninfo n2)) (new_err (KTooManyItems 1)))   (* at the first surplus item *)
     end.
 
   Definition enum_from_string (variants : list (vinfo * list (finfo * ty))) (vconvs : list (list fm))
